@@ -92,8 +92,20 @@ def impl(case):
     raw = lambda: repr([float(x) for x in np.atleast_1d(h.to_dict()["missed"])])
     steps = []
     allv, allw, valid = [], [], True
+    def stats_of():
+        st = getattr(h, "_stats", None)
+        return None if st is None else repr([float(x) for x in (st.sum, st.sum2, st.min, st.max, st.weight)])
+    def all_outside(op):      # every value of the call lies in no bin (NaN rows aside)
+        vals = [op[1]] if op[0] == "fill" else op[1]
+        for r in vals:
+            x = [sx.fl(t) for t in r]
+            if any(t != t for t in x): continue
+            fb = h.find_bin(x[0] if nd == 1 else x)
+            if fb is not None and fb != -1 and fb != (h.bin_count if nd == 1 else None): return False
+        return True
     for op, call in zip(d["ops"], d["calls"]):
         raw0 = raw()
+        st0 = stats_of(); out0 = (not h.keep_missed) and nd == 1 and not h.is_adaptive() and all_outside(op)
         call, _, npk = call.partition(":")
         if op[0] == "fill":
             v = [sx.fl(x) for x in op[1]]; w = op[2]
@@ -126,6 +138,7 @@ def impl(case):
             except Exception as e:
                 ret = "refused"
         if not h.keep_missed and raw() != raw0: steps.append(["untracked-missed-counters-changed", raw0, raw()]); continue
+        if out0 and ret != "refused" and stats_of() != st0: steps.append(["untracked-values-changed-the-statistics", st0, stats_of()]); continue
         steps.append([ret] + _state(h))
     batch = "skip"
     if d["batch"] == "T" and allv:
